@@ -1,4 +1,5 @@
 """C14 - every SDF delay lands on the right line, polarity and dataset - none is lost."""
+import re
 import numpy as np
 from hypothesis import strategies as st
 
@@ -15,7 +16,7 @@ RULE = ('Part api: per library a one-cell circuit built with Node/Line in three 
         'grouped freely into CELL blocks - several blocks per instance, several (INSTANCE) blocks, interleaved - with TIMINGCHECK blocks and comments '
         'as noise. Oracle: ground-truth array [3, lines, 2, 2] filled from the model in file order (the line feeding a pin is found through the '
         'branch-fork name or an own reading of the library pin order); iopaths() and interconnects() must equal it exactly, zeros everywhere else. '
-        'non-trivial: >= 2 CELL blocks for one instance or >= 2 interconnect blocks, plus an edge-qualified path and an empty triple; distinct by SHA-1.')
+        'non-trivial: >= 2 CELL blocks for one instance or >= 2 interconnect blocks, plus an edge-qualified path and an empty triple; distinct by SHA-1. CELL blocks for instances that are not in the circuit but whose names resemble existing ones (bracket / underscore spelling of a register bit, other case, longer name) are part of the noise.')
 ASSUMPTIONS = ['IOPATH entries only for connected pins; at most one INTERCONNECT entry per (driver, reader) pair; values are non-negative decimals',
                'instance names contain no hierarchy divider']
 
@@ -114,6 +115,23 @@ def prop(case):
         empty_used |= any((not t) or any(v is None for v in t) for t in vals)
     if case['hdr'] % 3 == 0:
         blocks.append(('no_such_instance_u99', insts[0]['cell'], [(f'(IOPATH {pins[0][1]} {list(insts[0]["outs"])[0]} (1.0:2.0:3.0) (4.0:5.0:6.0))', 'none', 0, [0, 1], None)]))
+    # blocks for instances that are not in the circuit are skipped - also when their name resembles an existing one (another spelling of the
+    # brackets of a register bit, other case, a longer name): 'every other entry of the delay array is zero'
+    have = {i_['name'] for i_ in insts}
+    near_miss = 0
+    for j, i_ in enumerate(insts):
+        if (case['hdr'] + j) % 2:
+            continue
+        cin = [(p_, s_) for p_, s_ in i_['ins'].items() if s_ is not None] if isinstance(i_.get('ins'), dict) else []
+        if not cin:
+            continue
+        n_ = i_['name']
+        cands = [n_.replace('[', '_').replace(']', '_'), re.sub(r'_(\d+)_$', r'[\1]', n_), n_.upper(), n_.lower(), n_ + '_', n_ + '[0]']
+        for alt in cands:
+            if alt != n_ and alt not in have:
+                blocks.append((alt, i_['cell'], [(f'(IOPATH {cin[0][0]} {list(i_["outs"])[0]} (1.5:2.5:3.5) (4.5:5.5:6.5))', 'none', 0, [0, 1], None)]))
+                near_miss += 1
+                break
     used_pairs = set()
     nic = 0
     port_ic = False
@@ -259,6 +277,7 @@ def prop(case):
                             f'{got_ic[tuple(bad)]}, SDF file says {exp_ic[tuple(bad)]}' if bad is not None else f'shape {got_ic.shape} vs {exp_ic.shape}')
                             + f' (branchforks={bf})\n{stext}')
         if nic: labels.append('interconnects')
+        if near_miss: labels.append('blocks_for_absent_instances_with_similar_names')
         if port_ic: labels.append('interconnect_to_output_port')
     per_inst = {}
     for (iname, blk) in bindex:
